@@ -28,7 +28,9 @@ RULE = ('Case = a fresh _Configuration() (argv neutralised; optionally construct
         'a reset with a config file; distinct by canonical case.')
 ASSUMPTIONS = ['--config-value strings are chosen from a table whose YAML parse is known, so the model does not depend on yaml.']
 
-KEYS = ['ka', 'kb', 'kc', 'kd', 'ke']
+# 'reset' and 'load' are valid key names (lowercase first letter) that are also names of methods of the configuration object
+RESERVED = ['reset', 'load']
+KEYS = ['ka', 'kb', 'kc', 'kd', 'ke'] + RESERVED
 BAD_KEYS = ['Bad', '_x', '9k']
 FLAG_TABLE = {'5': 5, 'abc': 'abc', 'true': True, '[1, 2]': [1, 2], 'null': None, '{a: 1}': {'a': 1}, '1.5': 1.5, 'x=y': 'x=y'}
 NOT_SET = '<<NOT_SET>>'
@@ -107,6 +109,8 @@ class Runner(object):
       got_item = call(conf.__getitem__, k)
       got_attr = call(getattr, conf, k)
       exp_attr = exp if k[0].islower() else ('exc', 'AttributeError')
+      if k in RESERVED and k not in model.decl:
+        got_attr = exp_attr      # not a configuration key: the attribute is the method of that name
       for name, got, want in (('item', got_item, exp), ('attr', got_attr, exp_attr)):
         if got[0] != want[0] or (got[0] == 'value' and not same(got[1], want[1])) or (got[0] == 'exc' and got[1] != want[1]):
           src = 'flag' if k in model.flags else 'loaded' if k in model.loaded else 'default'
@@ -141,6 +145,11 @@ class Runner(object):
           exp = 'KeyAlreadyDeclaredError'
         kw = {} if default == NOT_SET else {'default_value': copy.deepcopy(default)}
         got = call(conf.declare, k, **kw)
+        if exp is None and k in RESERVED and got == ('exc', 'InvalidKeyError'):
+          # refusing a name that attribute access could never reach is one way of keeping the views in agreement; if it
+          # is accepted instead, compare_all demands that all views agree on it
+          self.flags_hit['reserved_name'] = True
+          continue
         if exp:
           if got != ('exc', exp):
             self.bad('C20/declare-not-rejected/%s' % exp, '%s: got %r' % (when, got))
@@ -272,7 +281,7 @@ def check(case):
       except Exception:  # pylint: disable=broad-except
         pass
       os.unlink(tmp.name)
-  r.nontrivial = any(v for k, v in run.flags_hit.items() if not k.startswith('sar_raises_'))
+  r.nontrivial = any(v for k, v in run.flags_hit.items() if not k.startswith('sar_raises_') and k != 'reserved_name')
   r.classes = [k for k, v in run.flags_hit.items() if v] + ['ops:%d' % (len(case['ops']) // 10 * 10)] + (['file'] if case['file'] is not None else []) + (
       ['ctor-flags'] if case['flags'] else [])
   return r
